@@ -60,6 +60,7 @@ func suiteBlockProof(c *Ctx) {
 		total = 80000
 	}
 	defer func() { idScheme = 0 }()
+	defer blockProofOverlap(c)
 	for it := 0; it < total; it++ {
 		idScheme = []int{0, 0, 1, 2}[it%4] // long ids sharing a prefix: abbreviations must not be used as identities
 		inst := uint64(100 + r.Intn(2))
